@@ -56,6 +56,9 @@ var vtC12T *testing.T
 
 var vtC12Sentinel = time.Unix(1000000000, 0)
 
+var vtC12Helper *system.FileTestUtil
+var vtC12Case int
+
 type vtC12BEEnv struct {
 	paths  []string // absolute cpuset.cpus path per directory
 	writes []int64
@@ -163,8 +166,17 @@ func vtC12BERun(in []int64) []int64 {
 	for i := 1; i < nd; i++ {
 		par[i] = int(next())
 	}
-	helper := system.NewFileTestUtil(t)
-	defer helper.Cleanup()
+	// one FileTestUtil for the whole run (NewFileTestUtil forks `getconf`); every case gets its own
+	// cgroup root below its temp dir
+	if vtC12Helper == nil {
+		vtC12Helper = system.NewFileTestUtil(t)
+		t.Cleanup(vtC12Helper.Cleanup)
+	}
+	helper := vtC12Helper
+	vtC12Case++
+	root := filepath.Join(helper.TempDir, fmt.Sprintf("case%d", vtC12Case))
+	system.Conf.CgroupRootDir = root
+	defer os.RemoveAll(root)
 	helper.SetCgroupsV2(v2)
 	res, err := system.GetCgroupResource(system.CPUSetCPUSName)
 	if err != nil {
